@@ -58,6 +58,33 @@ theorem input_no_prompt (c1 c2 c3 c5 c7 t0 rest : Val) :
       .ok (.stmt (.input (some (.lit (.str "? ") true)) (toExprs (t0 :: listOf rest)))) := by
   simp [visitInputStatement, kid, pure, Except.pure]
 
+/-! ### C02 / C01: the condition of the plain IF form is always a BOOLEAN expression -/
+
+def boolRoot : Expr → Bool
+  | .bin true .. | .un true .. | .paren true .. => true
+  | _ => false
+
+theorem dispatch_if (env : Env) (text : String) (c0 c1 c3 c4 c5 cond body : Val) :
+    visitNamed env "if_stmnt" text [c0, c1, cond, c3, c4, c5, body] = .ok (visitIfStmnt cond body) := by rfl
+
+/-- `IF c THEN …` (no ELSE): whatever the condition is, the emitted IF tests a boolean-class
+expression - the condition itself when the grammar read it as boolean, `c <> 0.0` otherwise.  (The
+two IF…ELSE forms have no such step: the known finding `numeric-condition-in-if-else`.) -/
+theorem if_condition_boolean (cond body : Val) :
+    ∃ c b, visitIfStmnt cond body = .stmt (.if_ c b []) ∧ boolRoot c = true := by
+  unfold visitIfStmnt
+  by_cases h : isBoolExp cond = true
+  · refine ⟨toExpr cond, toStmt body, by simp [h], ?_⟩
+    cases cond with
+    | e x =>
+        cases x with
+        | bin b l op r => cases b <;> simp_all [isBoolExp, toExpr, boolRoot]
+        | un b op e => cases b <;> simp_all [isBoolExp, toExpr, boolRoot]
+        | paren b e s => cases b <;> simp_all [isBoolExp, toExpr, boolRoot]
+        | _ => simp [isBoolExp] at h
+    | _ => simp [isBoolExp] at h
+  · exact ⟨.bin true (toExpr cond) "<>" (.lit (.flt "0.0") false), toStmt body, by simp [h], rfl⟩
+
 /-! ### C08: blanks never reach the object graph -/
 
 /-- a node whose text is only blanks and line ends becomes the empty string, however long it is -/
